@@ -64,6 +64,8 @@ __CPROVER_ensures(fRawBufIndex <= fRawBytesAvail && fRawBytesAvail <= kRawBufSiz
 __CPROVER_ensures(verif_thrown ==> !__CPROVER_return_value)
 __CPROVER_ensures(__CPROVER_return_value ==> (fCharsAvail >= 1 && fCharIndex == 0))
 __CPROVER_ensures((!verif_thrown && !__CPROVER_return_value) ==> fCharIndex == fCharsAvail)
+/* with at least one spare character the refill cannot report end-of-data */
+__CPROVER_ensures((!verif_thrown && __CPROVER_old(fCharIndex) < __CPROVER_old(fCharsAvail)) ==> __CPROVER_return_value)
 /* C04 refill transparency: every spare (unread) character survives the refill, unchanged and in order, at the front */
 __CPROVER_ensures((!verif_thrown && __CPROVER_return_value && G < (__CPROVER_old(fCharsAvail) - __CPROVER_old(fCharIndex))) ==> (fCharIndex == 0 && fCharsAvail >= (__CPROVER_old(fCharsAvail) - __CPROVER_old(fCharIndex)) && fCharBuf[G] == __CPROVER_old(fCharBuf[(fCharIndex + G < kCharBufSize) ? fCharIndex + G : 0])))
 __CPROVER_ensures((!verif_thrown && __CPROVER_return_value && G < (__CPROVER_old(fCharsAvail) - __CPROVER_old(fCharIndex))) ==> fCharSizeBuf[G] == __CPROVER_old(fCharSizeBuf[(fCharIndex + G < kCharBufSize) ? fCharIndex + G : 0]))
